@@ -1,6 +1,7 @@
 import FsModel.Driver
 import FsModel.DriverGrid
 import FsModel.Mst
+import FsModel.MstCert
 import FsModel.Spl
 import FsModel.Blocks
 
@@ -24,7 +25,27 @@ def callBgraph (c : Call) (st : St) : List String :=
   let bg := Fs.Mst.basinGraph S st.topo st.mask st.isBase (recv0 g) g.dfs (look b.labels 0) b.outlets f useB perm
     Fs.Gen.maxLowDegree
   let sgn (x : Nat) : String := if x = Fs.Mst.none then "-1" else toString x
-  [ line "bg_outlets" (joinNats b.outlets),
+  -- certificate (soundness: `Fs.C15.certOk_sound`): the raw tree of the chosen method, before
+  -- orientation, is a minimum-weight spanning forest of the lowest-pass edges
+  let cb := Fs.Mst.connectBasins S st.topo st.mask st.isBase (recv0 g) g.dfs (look b.labels 0) b.outlets f
+  let nb := b.outlets.length
+  let tree0 := if useB then Fs.Mst.boruvka S nb cb.edges Fs.Gen.maxLowDegree else Fs.Mst.kruskal nb cb.edges perm
+  let cert := Fs.Mst.certOk S nb cb.edges tree0
+  -- the same checker on the edge array and the final tree the implementation reported
+  -- (`I impl_bg_edges`, `I impl_bg_tree`; soundness: `Fs.C15.certImpl_sound`)
+  let rec parseE : List String → List (Fs.Mst.BEdge F)
+    | a :: b2 :: p0 :: p1 :: pe :: pl :: rest =>
+      let sg (x : String) : Nat := if x == "-1" then Fs.Mst.none else natOf x
+      { l0 := natOf a, l1 := natOf b2, p0 := sg p0, p1 := sg p1, pe := hexF pe, pl := hexF pl } :: parseE rest
+    | _ => []
+  let certI : List String := match findInp c "impl_bg_edges", findInp c "impl_bg_tree" with
+    | some ev, some tv =>
+      let ie := (parseE ev).toArray
+      [line "bg_cert_impl" (if Fs.Mst.certImpl S nb ie (tv.map natOf) cb.root then "1" else "0")]
+    | _, _ => []
+  certI ++
+  [ line "bg_cert" (if cert then "1" else "0"),
+    line "bg_outlets" (joinNats b.outlets),
     line "bg_edges" (" ".intercalate (bg.edges.toList.map (fun e =>
       toString e.l0 ++ " " ++ toString e.l1 ++ " " ++ sgn e.p0 ++ " " ++ sgn e.p1 ++ " " ++ fHex e.pe ++ " " ++ fHex e.pl))),
     line "bg_tree" (joinNats bg.tree) ]
